@@ -334,6 +334,12 @@ func (fr *Frame) enterLoop(b *ssa.BasicBlock, st *State, reach string, entryPhi 
 	} else {
 		vc.havocMods(st, l.mods)
 	}
+	if vc.locksOn && !fr.pure {
+		if fr.loopLocks == nil {
+			fr.loopLocks = map[int]*State{}
+		}
+		fr.loopLocks[b.Index] = st.clone()
+	}
 	for _, phi := range phis {
 		t := phi.Type()
 		ev := entryVals[phi]
@@ -392,6 +398,10 @@ func (fr *Frame) backEdges(b *ssa.BasicBlock, st *State) {
 		}
 		l := fr.loops.headers[s.Index]
 		spec := fr.loopSpec(l)
+		if head := fr.loopLocks[s.Index]; head != nil && !fr.pure {
+			// the cut keeps the lock state: an iteration must leave it as it found it
+			vc.lockLoopBalance(fr, head, st, fr.edge[[2]int{b.Index, s.Index}], l)
+		}
 		if spec == nil || fr.pure {
 			continue
 		}
